@@ -309,10 +309,10 @@ func TestC21Sequential(t *testing.T) {
 		"virtual-clock advances (1 s … 49 h, and to expiry-1ns / expiry / expiry+1ns of a slot), server key change A<->B, validation of the slot's token or of a one-digit-altered copy through one of three doors; " +
 		"distinct = distinct (history, step) validations; non-trivial = the slot holds an issued token"
 	r.Assume("testing/synctest virtual clock: time.Now/Sleep inside the bubble are virtual, the cache sweepers run in bubble time; the SQLite handle of the revocation store was opened outside the bubble")
-	r.Assume("counts are sized by the measured cost of a token validation (an Argon2id derivation over 32 MiB: 45 ms at best, more than a second when the machine is busy), not by the design's 50 ms estimate: quick 96 histories x 40 steps over 16 child processes, thorough x 50")
+	r.Assume("counts are sized by the measured cost of a token validation (an Argon2id derivation over 32 MiB: 45 ms at best, more than a second when the machine is busy), not by the design's 50 ms estimate: quick 64 histories x 40 steps over 16 child processes, thorough x 50")
 	r.Assume("at the exact expiry instant either answer is accepted (the property says 'has not expired'); one nanosecond before must accept, one after must reject")
 
-	total := vh.N(96, 4800)
+	total := vh.N(64, 3200)
 	steps := 40
 
 	if rc := vh.ReplayCase(); rc != nil {
